@@ -8,33 +8,33 @@ CLAIMED = {
     "C09": dict(
         level="fault_enumeration", ref="DESIGN.md 5.1",
         technique="deterministic simulation with fault injection on stored path data: seeded torn/lost/duplicated/corrupted records, crash-consistency oracles on the partially built path, deterministic step budget",
-        text="Fault model on stored path data (truncation at any position, token delete/duplicate/replace, character flips incl. control/non-ASCII, junk insertion, missing current point, bad flags, very long inputs) injected into grammar-directed strings and bare fragments; each run checks exception type, a deterministic line-step budget (termination), that the parse of the longest grammar-conforming prefix (independent recogniser) is retained unaltered, and that d()/bbox()/length()/abs(p*M) work on whatever was left behind. Fault kinds and positions are sampled per seed, not enumerated exhaustively.",
+        text="Fault model on stored path data (truncation at any position, token delete/duplicate/replace, character flips incl. control/non-ASCII, junk insertion, missing current point, bad flags, very long inputs) injected into grammar-directed strings and bare fragments; each run checks exception type, a deterministic line-step budget (termination), that the parse of the longest grammar-conforming prefix (independent recogniser) is retained unaltered, and that d()/bbox()/length()/abs(p*M) work on whatever was left behind; a history-independence oracle parses unrelated damaged data between two parses of the same string, the reference prefix is parsed by a pristine instance of the library, and runs execute in hermetic forked chunks so that a result depending on earlier calls is replayed with its minimal history. Fault kinds and positions are sampled per seed, not enumerated exhaustively.",
         note="Trusted: the independent SVG 2 grammar recogniser in sim/gen_path.py (where SVG 1.1 and 2 disagree the prefix oracle is skipped and counted); the step-budget constants (20x the pinned tree's maximum); None is accepted only where no current point exists yet (documented path fragments); inf/nan literals skip the follow-up operations."),
     "C16": dict(
         level="exploration", ref="DESIGN.md 5.3",
         technique="deterministic simulation: seeded histories of reversals through shared handles (path, fresh and stale subpath views) interleaved with transforms/copies/observers, checked step by step against an executable reference model",
-        text="Seeded search over operation histories on one shared segment list reached through several handles (Path.reverse, Subpath.reverse via fresh and stale views, transform+reify, copy-and-continue, observers); after every step the real path is compared with a reference model (subpaths of sampled primitives, q(t)=p(1-t), sweep negated), connectivity is recomputed from public fields, untouched subpaths must be bit-identical, and two consecutive reversals must restore the canonical form. One known finding (view reversal next to a move-less subpath) is listed in known_findings.json. Sampling, not proof.",
+        text="Seeded search over operation histories on one shared segment list reached through several handles (Path.reverse, Subpath.reverse via fresh and stale views, transform+reify, copy-and-continue, observers); after every step the real path is compared with a reference model (subpaths of sampled primitives, q(t)=p(1-t), sweep negated), connectivity is recomputed from public fields, untouched subpaths must be bit-identical, two consecutive reversals must restore the canonical form, and the reversed object's own point(t)/bbox() must agree with a cache-free copy (observers earlier in the history fill caches). One known finding (view reversal next to a move-less subpath) is listed in known_findings.json. Sampling, not proof.",
         note="Trusted: the model's independent subpath partition (SVG rule) and canonical form (a move-only subpath coinciding with a neighbouring point is dropped); tolerance 1e-9*scale, 1e-6*radius for interior arc samples (atan2/sqrt conditioning); arcs are only transformed by similarities/reflections; model re-based from the real path after transforms and copies so that C02/C18 defects cannot alarm here."),
     "C17": dict(
         level="exploration", ref="DESIGN.md 5.4",
         technique="deterministic simulation: seeded append histories checked step by step against a single-copy reference (one-shot parse)",
-        text="Seeded search over append histories (split points, append forms p+b / p+=b / parse / segment+b, interleaved observers), every step compared with the library's own one-shot parse of the concatenated text; stratified so that every (last command of a, first command of b) pair occurs. Sampling, not proof: the space of strings is unbounded.",
+        text="Seeded search over append histories (split points, append forms p+b / p+=b / parse / segment+b, interleaved observers), every step compared with the one-shot parse of the concatenated text made by a pristine instance of the library; stratified so that every (last command of a, first command of b) pair occurs; twin histories (same pieces, one control point changed) and path-object appends inside string histories expose state kept between calls. Sampling, not proof: the space of strings is unbounded.",
         note="Trusted: the one-shot parse as reference (what C17 literally states); the generator's grammar coverage (every letter, implicit repetition, inline close); float comparison at 1e-9 relative. Arcs under shear and lazily transformed right operands are outside the property's quantifier and are not generated."),
 }
 CLAIMED["C18"] = dict(
         level="exploration", ref="DESIGN.md 5.5",
         technique="deterministic simulation: seeded two-owner mutation histories over source and derived object, structural probe for shared nodes, snapshot/equality oracles after every step",
-        text="Seeded search over two-owner histories: for every element kind and derivation the property names (copy, x*M, abs, Path(x), Path(subpath), Group copy) up to 6 public mutations are interleaved on source and result, a structural probe places the first mutation on any node reachable from both; after each step the untouched owner's public snapshot and its == against a frozen deep copy must be unchanged; for +, -, ~ only what the property states (operands untouched by evaluation) is demanded. Sampling over kinds x derivations x mutation sequences, not proof.",
+        text="Seeded search over two-owner histories: for every element kind and derivation the property names (copy, x*M, abs, Path(x), Path(subpath), Group copy) up to 6 public mutations are interleaved on source and result, a structural probe places the first mutation on any node reachable from both; after each step the untouched owner's public snapshot and its == against a frozen deep copy must be unchanged; for +, -, ~ only what the property states (operands untouched by evaluation, and never handed back as the result) is demanded; sources are optionally warmed up by observers before the derivation or kept cold and compared at the end with an untouched twin. Sampling over kinds x derivations x mutation sequences, not proof.",
         note="Trusted: the snapshot covers the public attributes that carry geometry, transform, paint, values and children; value-at-derivation for x*M and abs(x) is differential against copy(x) followed by the in-place form; SVG (document root) and constructor-from-object on value types are outside the property's list and are not exercised.")
 CLAIMED["C10"] = dict(
         level="fault_enumeration", ref="DESIGN.md 5.2",
         technique="deterministic simulation with fault injection on attribute values and on stream delivery: seeded faults x independently scheduled short-read delivery, differential isolation oracle against the document without the offending elements, deterministic step budget",
-        text="1-3 attribute faults per run from a grammar of syntactically malformed values (path data, transform, colour, length, points, viewBox, number) and use retargeting (missing, self, ancestor, mutual cycle), biased to containers, referenced elements and first/last children, injected into generated documents; the damaged document and the document without the offending elements reach SVG.parse through independently drawn delivery schedules (StringIO, BytesIO, short-read byte/text streams incl. 1-byte reads, simulated file with short raw reads). Oracles: no exception, bounded line steps, identity of every element outside the exempt set. Faults and schedules are sampled per seed, not enumerated exhaustively.",
+        text="1-3 attribute faults per run from a grammar of syntactically malformed values (path data, transform, colour, length, points, viewBox, number) and use retargeting (missing, self, ancestor, mutual cycle), biased to containers, referenced elements and first/last children, injected into generated documents; the damaged document and the document without the offending elements reach SVG.parse through independently drawn delivery schedules (StringIO, BytesIO, short-read byte/text streams incl. 1-byte reads, simulated file with short raw reads). Oracles: no exception, bounded line steps, identity of every instance outside the offender's position in the returned tree (reference parsed by a pristine instance of the library, schedule-chosen order of the two parses), and history independence (an unrelated document parsed between two parses of the same one). Faults and schedules are sampled per seed, not enumerated exhaustively.",
         note="Trusted: the exempt-set computation over the generator's own tree; observation through abs(Path(copy)) of every rendered shape plus text/title/desc content; the fault grammar contains only syntactically malformed values (zero/negative sizes are legal and are not injected); step budget 20x the pinned tree's maximum.")
 CLAIMED["C20"] = dict(
         level="fault_enumeration", ref="DESIGN.md 5.6",
         technique="deterministic simulation with fault injection on a simulated disk: write -> crash-after-ack freeze -> read-back histories over three generations, short raw reads/writes, injected ENOSPC/EIO at enumerated raw writes and on close, seeded document and tree generation",
-        text="Three-generation write/read histories over a simulated disk on which only what the raw file accepted is durable: string_xml and write_xml to plain, svgz, path-like names and caller-owned text/binary files; the image is frozen the instant the call returns (no GC, nothing flushed on the library's behalf); raw writes/reads are short; OSError is injected at a raw write chosen among those of the fault-free run, or on close. Oracles: the acknowledged image is a complete gzip stream/well-formed XML, no silent loss under I/O errors, shapes/paint/ids/rendered stroke width equal within the six-decimal matrix precision, fixed point from generation 1. One known finding (arc radii pass through d() with six significant digits) is listed. Sampled, not enumerated exhaustively.",
+        text="Three-generation write/read histories over a simulated disk on which only what the raw file accepted is durable: string_xml and write_xml to plain, svgz, path-like names and caller-owned text/binary files; the image is frozen the instant the call returns (no GC, nothing flushed on the library's behalf); raw writes/reads are short; OSError is injected at a raw write chosen among those of the fault-free run, or on close. Oracles: the acknowledged image is a complete gzip stream/well-formed XML, no silent loss under I/O errors, shapes/paint/ids/rendered stroke width equal within the six-decimal matrix precision, fixed point from generation 1, writing leaves the tree unchanged and repeats itself, and the text equals what a pristine instance of the library writes for the same source. One known finding (arc radii pass through d() with six significant digits) is listed. Sampled, not enumerated exhaustively.",
         note="Trusted: xml.etree as independent well-formedness check; tolerance 2e-6*(1+max local or absolute coordinate)*max(1, viewport scale); the element class and text elements are not compared; gzip reads go through the real BufferedReader over the short-reading raw file.")
 BUILDING = {}
 
